@@ -1,5 +1,7 @@
 import SurfModel.Proto
 import SurfModel.KeyMap
+import SurfProofs.Lemmas.KeyMapSpec
 def main : IO Unit := SurfModel.Proto.serve fun
+  | "c18" :: "spec" :: rest => SurfProofs.C18.specHandle rest
   | "c18" :: rest => SurfModel.KeyMap.handle rest
   | _ => "bad-op"
